@@ -32,6 +32,19 @@ func Plan(r *report.Run, retry bool, forms []string) []atom.Config {
 			n++
 		}
 	}
+	// the shapes that modify existing nodes once more over an AGED store (every baseline node already
+	// updated by an earlier commit); quick: updates and removes, thorough: all of them
+	for _, sh := range shapes {
+		if !r.Thorough() && sh != "S6-updates" && sh != "S7-removes" {
+			continue
+		}
+		if sh == "S1-newstore" {
+			continue
+		}
+		cfgs = append(cfgs, atom.Config{Seed: r.Seed, Prog: n, Shape: sh, Forms: forms, Retry: retry, Aged: true,
+			Profile: string(profiles[(n+1)%len(profiles)]), Slot: slots[n%len(slots)]})
+		n++
+	}
 	return cfgs
 }
 
@@ -71,12 +84,12 @@ func Run(r *report.Run) int {
 			planned++
 			if res.Fired == 0 {
 				r.Inconclusive("site-not-reached")
-				r.Eval(fmt.Sprintf("%s:%s:%s", res.Shape, res.Site, res.Form), false)
+				r.Eval(fmt.Sprintf("%s#%d:%s:%s", res.Shape, res.Prog, res.Site, res.Form), false)
 				continue
 			}
 			reached++
 		}
-		r.Eval(fmt.Sprintf("%s:%s:%s", res.Shape, res.Site, res.Form), true)
+		r.Eval(fmt.Sprintf("%s#%d:%s:%s", res.Shape, res.Prog, res.Site, res.Form), true)
 		if res.Committed {
 			r.Count("commit_returned_nil", 1)
 		} else {
